@@ -739,3 +739,27 @@ fn icc_tag_list_end_size() {
         assert!(out.len() == 200, "[C18] Ok only with exactly output_size bytes, also when the commands end inside the tag list");
     }
 }
+
+// ---- all three sections in one profile ----------------------------------------------------------------
+#[kani::proof]
+#[kani::unwind(260)]
+fn icc_mixed_profile() {
+    // header; 2 tags (literal, wtpt); width-4 order-1 run with stride 12 predicted from the two tag entries (the typical
+    // use: tag offsets form an arithmetic progression); 2-shuffle of 5; command 10; command 19
+    const OUT: usize = ICC_H + 4 + 24 + 8 + 5 + 20 + 8;
+    let data: [u8; ICC_H + 4 + 8 + 5 + 12] = kani::any();
+    let name = &data[ICC_H..ICC_H + 4];
+    let r = icc_decode(OUT, &[3, 1, 5, 0, 4, icc_predict_flags(4, 1, true), 12, 8, 2, 5, 10, 19], &data);
+    let mut exp = IccExp::with_header(OUT, &data);
+    exp.be32(2);
+    let size0 = if spec_icc_tag_implies_20(name) { 20 } else { 0 };
+    exp.tag(name, 152, size0);
+    exp.tag(b"wtpt", 152 + size0, 20);
+    let d = &data[ICC_H + 4..];
+    exp.predicted_run(&d[..8], 4, 1, 12);
+    exp.bytes(&spec_shuffle(&d[8..13], 2));
+    exp.bytes(b"XYZ "); exp.be32(0); exp.bytes(&d[13..25]);
+    exp.bytes(b"mluc"); exp.be32(0);
+    icc_expect_ok(&r, &exp);
+    kani::cover!(spec_icc_tag_implies_20(name));
+}
